@@ -147,6 +147,7 @@ def main(tier, seed):
         run.cell('option_set_class', c.get('optset', '?').split(':')[0])
         run.add(slim, r)
     pool.run_cases(light, 'vf.props.nameeng:run_case', timeout=30, batch=30, on_result=on, deadline=run.deadline)
+    nameeng.foreign_layer(run, PROP, light, tier, per_version=450 if tier == 'quick' else 8000)
     pool.run_cases(heavy, 'vf.props.nameeng:run_case', timeout=60, batch=2, on_result=on, deadline=run.deadline)
     def on_O(c, r):
         slim = {'shape': c['shape'], 'layer': 'optimize'}
@@ -160,7 +161,7 @@ def main(tier, seed):
              'default, all-on, pairwise, random}; seeds, random modules and stdlib files x standard / pairwise / random option sets; '
              'non-trivial/distinct = distinct (source, option set) where the output differs from the input and a documented rule fired',
         assumptions=['vf/oracle/matcher.py encodes docs/source/transforms/*.rst; an implementation may rewrite less than documented, never more'],
-        min_nontrivial=150, required_counters=['matcher_runs', 'optimize_equivalence_runs'])
+        min_nontrivial=150, required_counters=['matcher_runs', 'foreign_outputs_compared', 'optimize_equivalence_runs'])
 
 
 def replay(path):
